@@ -14,8 +14,9 @@
    network's router answers a query (a, b) with a walk from a to b (C13 for the OSM network; C07_haversine_router for the
    haversine network) and that the step length is positive.  Rests on C07_traverse_keeps_walk: routetraversal.traverse turns
    a walk from g to h into a driven part and a remaining part that together are a walk from g to h, for every link table.
-   (For ServicingTrip the end of the route is not tied to the request's destination by this invariant; drop-off is refused
-   elsewhere: C07_trip_ends_at_destination.) *)
+   A vehicle serving a trip follows the router's answer to (its place at the pickup, the destination of the request it carries):
+   its remaining route always ends at that destination, so when it is exhausted the vehicle is there (and a drop-off anywhere
+   else is refused: C07_trip_ends_at_destination). *)
 From Hive.Base Require Import Prelude.
 From Hive.Model Require Import Types KernelBase SimOps States Step.
 From Hive.Proofs Require Import Guards VehFrame Macro CountInv PlaceInv Walk RouteInv.
@@ -60,6 +61,7 @@ Theorem C07_arrived : forall s v, on_route s v ->
   | DispatchStation sid _ [] => exists x, find sid (stations s) = Some x /\ v_geoid v = s_geoid x
   | DispatchBase bid [] => exists b, find bid (bases s) = Some b /\ v_geoid v = b_geoid b
   | DispatchTrip rid [] => forall q, find rid (requests s) = Some q -> r_disp q = Some (v_id v) -> v_geoid v = r_geoid q
+  | ServicingTrip q _ [] => v_geoid v = p_geoid (r_dest q)
   | _ => True
   end.
 Proof. exact arrived. Qed.
